@@ -11,6 +11,9 @@ import (
 	"sync"
 	"time"
 
+	"github.com/sanonone/kektordb/pkg/core"
+	"github.com/sanonone/kektordb/pkg/core/distance"
+	"github.com/sanonone/kektordb/pkg/core/types"
 	"github.com/sanonone/kektordb/pkg/engine"
 	"github.com/sanonone/kektordb/pkg/verifhook"
 )
@@ -29,6 +32,9 @@ type wbehaviour struct {
 	Acked     map[string]int `json:"acked"`     // spec: acknowledged version per client
 	Recovered map[string]int `json:"recovered"` // spec: what a restart reads
 	Gap       bool           `json:"gap"`       // spec: the journal/apply gap deviation was exercised
+	Kind      string         `json:"kind"`      // what a client write is: "kv" (KVSet, default), "vadd" (VAdd), "vbatch" (VAddBatch)
+	Probe     bool           `json:"probe"`     // a schedule the specification FORBIDS (capture while a call sits between journal and apply):
+	// the implementation is expected to refuse the forbidden step; if it takes it, the schedule is carried on and judged by its outcome
 }
 
 type wresult struct {
@@ -40,6 +46,8 @@ type wresult struct {
 	AckedPre  map[string]int `json:"acked_before_close"`
 	Forced    int            `json:"forced"`  // controllable steps actually forced
 	Skipped   int            `json:"skipped"` // steps that could not be forced (procedure had already ended)
+	Refused   int            `json:"refused"`   // probe: forbidden steps the implementation refused to take (it waited, as specified)
+	Proceeded int            `json:"proceeded"` // probe: forbidden steps the implementation DID take
 	Note      string         `json:"note,omitempty"`
 }
 
@@ -96,7 +104,7 @@ func (s *sched) releaseAll() {
 // handler is installed as the verifhook handler: a goroutine arriving at an armed gate parks there.
 func (s *sched) handler(name string, kv []any) {
 	key := name
-	if name == "op.journaling" || name == "op.journaled" {
+	if name == "op.journaling" || name == "op.journaled" || name == "op.applying" {
 		if len(kv) >= 2 {
 			key = fmt.Sprintf("%s:%v", name, kv[1])
 		}
@@ -113,6 +121,8 @@ func (s *sched) handler(name string, kv []any) {
 	}
 	<-g.release
 }
+
+const probeWait = 300 * time.Millisecond // how long a forbidden step is given to (wrongly) happen
 
 const stepTimeout = 90 * time.Second // generous: forced schedules run next to other checks on a loaded machine
 
@@ -173,6 +183,102 @@ func cmdWriter(args []string) int {
 
 func keyOf(c string) string { return "key-" + c }
 
+// wclient is what "client c writes version v of its item" means on the real engine, per kind.
+type wclient struct {
+	kind string
+}
+
+const batchN = 6
+
+func (w wclient) item(c string) string { // second hook argument of the client's calls
+	if w.kind == "kv" {
+		return keyOf(c)
+	}
+	return "ix-" + c
+}
+
+// gapGate is the hook at which a call sits between its journal write and its memory update
+func (w wclient) gapGate(c string) string {
+	if w.kind == "kv" {
+		return "op.journaled:" + w.item(c)
+	}
+	return "op.applying:" + w.item(c)
+}
+
+func (w wclient) prepare(e *engine.Engine, clients []string) error {
+	if w.kind == "kv" {
+		return nil
+	}
+	for _, c := range clients {
+		if err := e.VCreate(w.item(c), distance.Euclidean, 4, 10, distance.Float32, "", nil, nil, nil); err != nil {
+			return err
+		}
+		seed := make([]types.BatchObject, 12)
+		for i := range seed {
+			seed[i] = types.BatchObject{Id: fmt.Sprintf("seed-%d", i), Vector: []float32{float32(i), 1, float32(i % 3)}}
+		}
+		if err := e.VAddBatch(w.item(c), seed); err != nil {
+			return err
+		}
+	}
+	return nil
+}
+
+func (w wclient) write(e *engine.Engine, c string, ver int) error {
+	switch w.kind {
+	case "kv":
+		return e.KVSet(keyOf(c), []byte(fmt.Sprintf("%d", ver)))
+	case "vadd":
+		return e.VAdd(w.item(c), fmt.Sprintf("v%d", ver), []float32{float32(ver), 2, 3}, map[string]any{"ver": ver})
+	default:
+		items := make([]types.BatchObject, batchN)
+		for i := range items {
+			items[i] = types.BatchObject{Id: fmt.Sprintf("v%d-%d", ver, i), Vector: []float32{float32(ver), float32(i), 1}, Metadata: map[string]any{"ver": ver, "i": i}}
+		}
+		return e.VAddBatch(w.item(c), items)
+	}
+}
+
+// has tells whether version ver of c's item is completely there (vector and metadata of every part)
+func (w wclient) has(e *engine.Engine, c string, ver int) bool {
+	num := func(d core.VectorData, k string) int {
+		f, _ := d.Metadata[k].(float64)
+		if n, ok := d.Metadata[k].(int); ok {
+			return n
+		}
+		return int(f)
+	}
+	switch w.kind {
+	case "kv":
+		v := 0
+		if raw, ok := e.KVGet(keyOf(c)); ok {
+			fmt.Sscanf(string(raw), "%d", &v)
+		}
+		return v == ver
+	case "vadd":
+		d, err := e.VGet(w.item(c), fmt.Sprintf("v%d", ver))
+		return err == nil && num(d, "ver") == ver && len(d.Vector) == 3 && d.Vector[0] == float32(ver)
+	default:
+		for i := 0; i < batchN; i++ {
+			d, err := e.VGet(w.item(c), fmt.Sprintf("v%d-%d", ver, i))
+			if err != nil || num(d, "ver") != ver || num(d, "i") != i || len(d.Vector) != 3 || d.Vector[1] != float32(i) {
+				return false
+			}
+		}
+		return true
+	}
+}
+
+// recovered is the highest version of c's item that is completely there
+func (w wclient) recovered(e *engine.Engine, c string, upto int) int {
+	for v := upto; v >= 1; v-- {
+		if w.has(e, c, v) {
+			return v
+		}
+	}
+	return 0
+}
+
 // runSchedule forces one behaviour of Writer.tla onto a real engine: client calls are parked between
 // their journal write and their memory update, and SaveSnapshot / RewriteAOF between their phases,
 // in exactly the order the behaviour prescribes; then Close, Open, and compare acknowledged writes
@@ -191,9 +297,29 @@ func runSchedule(b wbehaviour) (wresult, error) {
 	if err != nil {
 		return r, err
 	}
+	w := wclient{kind: b.Kind}
+	if w.kind == "" {
+		w.kind = "kv"
+	}
+	{
+		seen := map[string]bool{}
+		var cl []string
+		for _, st := range b.Ops {
+			if st.A == "C_Start" && !seen[st.C] {
+				seen[st.C] = true
+				cl = append(cl, st.C)
+			}
+		}
+		if err := w.prepare(e, cl); err != nil {
+			e.Close()
+			return r, fmt.Errorf("prepare: %v", err)
+		}
+	}
 	s := &sched{gates: map[string]*gate{}}
 	verifhook.Set(s.handler)
 	defer verifhook.Set(nil)
+	inGap := map[string]bool{} // clients parked between journal and apply
+	adminDeferred := false     // probe: the admin procedure is waiting (as specified) for a call to finish; its steps are not forced any more
 
 	clientDone := map[string]chan error{}
 	clientVer := map[string]int{}
@@ -210,12 +336,41 @@ func runSchedule(b wbehaviour) (wresult, error) {
 		"snap.truncated": "", "rw.begin": "rw.captured", "rw.captured": "rw.replaced", "rw.replaced": "",
 	}
 	advanceAdmin := func(expectAt string) error {
+		if adminDeferred {
+			// the remaining gates of the procedure are opened; it finishes whenever the call it waits for does
+			for k := range nextGate {
+				s.releaseKey(k)
+			}
+			return nil
+		}
 		if !adminLive || adminStage != expectAt {
 			r.Skipped++
 			return nil
 		}
 		s.releaseKey(adminStage)
 		nxt := nextGate[adminStage]
+		if b.Probe && len(inGap) > 0 && (expectAt == "snap.begin" || expectAt == "rw.begin") {
+			// the specification forbids this capture: some call sits between its journal write and its memory update
+			g := s.get(nxt)
+			select {
+			case <-g.reached:
+				r.Proceeded++ // taken anyway: carry on, the outcome after the restart decides
+				adminStage = nxt
+				r.Forced++
+				return nil
+			case <-adminDone:
+				r.Proceeded++
+				adminLive = false
+				return nil
+			case <-time.After(probeWait):
+				r.Refused++
+				adminDeferred = true
+				for k := range nextGate {
+					s.releaseKey(k)
+				}
+				return nil
+			}
+		}
 		if nxt == "" {
 			// last phase (end of snapshot mode + re-append by the writer): the procedure runs to completion
 			select {
@@ -246,23 +401,30 @@ func runSchedule(b wbehaviour) (wresult, error) {
 			c := st.C
 			clientVer[c]++
 			ver := clientVer[c]
-			s.arm("op.journaling:"+keyOf(c), "op.journaled:"+keyOf(c))
+			s.arm("op.journaling:"+w.item(c), w.gapGate(c))
 			done := make(chan error, 1)
 			clientDone[c] = done
-			go func() { done <- e.KVSet(keyOf(c), []byte(fmt.Sprintf("%d", ver))) }()
-			if _, _, err := waitReachedOrDone(s, "op.journaling:"+keyOf(c), done); err != nil {
+			go func() { done <- w.write(e, c, ver) }()
+			if _, _, err := waitReachedOrDone(s, "op.journaling:"+w.item(c), done); err != nil {
 				return r, err
 			}
 			r.Forced++
 		case "C_Enqueue":
 			c := st.C
-			s.releaseKey("op.journaling:" + keyOf(c))
-			reached, finished, err := waitReachedOrDone(s, "op.journaled:"+keyOf(c), clientDone[c])
+			if _, ok := clientDone[c]; !ok {
+				r.Skipped++
+				continue
+			}
+			s.releaseKey("op.journaling:" + w.item(c))
+			reached, finished, err := waitReachedOrDone(s, w.gapGate(c), clientDone[c])
 			if err != nil {
 				return r, err
 			}
 			if finished && !reached {
 				delete(clientDone, c) // the write was refused (writer closed): nothing acknowledged
+			}
+			if reached {
+				inGap[c] = true
 			}
 			r.Forced++
 		case "C_Apply":
@@ -272,7 +434,8 @@ func runSchedule(b wbehaviour) (wresult, error) {
 				r.Skipped++
 				continue
 			}
-			s.releaseKey("op.journaled:" + keyOf(c))
+			s.releaseKey(w.gapGate(c))
+			delete(inGap, c)
 			select {
 			case err := <-done:
 				if err == nil {
@@ -300,6 +463,7 @@ func runSchedule(b wbehaviour) (wresult, error) {
 			}
 			adminLive = reached && !finished
 			adminStage = adminKind + ".begin"
+			adminDeferred = false
 			r.Forced++
 		case "A_Capture":
 			if err := advanceAdmin(adminKind + ".begin"); err != nil {
@@ -436,13 +600,10 @@ func runSchedule(b wbehaviour) (wresult, error) {
 		return r, nil
 	}
 	defer e2.Close()
-	for c := range clientVer {
-		v := 0
-		if raw, ok := e2.KVGet(keyOf(c)); ok {
-			fmt.Sscanf(string(raw), "%d", &v)
-		}
+	for c, upto := range clientVer {
+		v := w.recovered(e2, c, upto)
 		r.Recovered[c] = v
-		if v < r.AckedPre[c] {
+		if v < r.AckedPre[c] || (w.kind != "kv" && r.AckedPre[c] > 0 && !w.has(e2, c, r.AckedPre[c])) {
 			r.Lost = append(r.Lost, c)
 		} else if v < r.Acked[c] {
 			r.LateLost = append(r.LateLost, c)
